@@ -7,7 +7,9 @@ let () =
       let bad = ref None in
       List.iter (fun (k, okv) ->
           if !bad = None && not okv then
-            bad := Some (if k.[0] = 'P' then k ^ ":parse_accepted_after_execution" else k ^ ":clone_of_executed_template_succeeded")) cs;
+            bad := Some (if k.[0] = 'P' then k ^ ":parse_accepted_after_execution"
+                         else if k.[0] = 'F' then k ^ ":a_parse_call_after_the_first_execution_changed_a_later_result"
+                         else k ^ ":clone_of_executed_template_succeeded")) cs;
       List.iter (fun e ->
           if !bad = None && e.proj_same = "0" then
             bad := Some (Printf.sprintf "op%d:result_depends_on_activity_in_another_name_space:%s_vs_%s" e.k e.res e.proj_res)) es;
